@@ -42,12 +42,14 @@ inductive Dir | recv | send | dflt
   deriving DecidableEq, Repr
 
 /-- one communication clause of a `select`: `ch` indexes the activation's channel table, `slot` is the
-    destination (recv) or source (send) slot, `target` the pc of the clause body -/
+    destination (recv) or source (send) slot, `target` the pc of the clause body; `ok` is the status slot of a
+    two-value receive clause (`case x, ok = <-c:`) -/
 structure Case where
   dir : Dir
   ch : Nat
   slot : Nat
   target : Nat
+  ok : Option Nat := none
   deriving DecidableEq, Repr
 
 inductive Stmt
@@ -227,7 +229,7 @@ def execR (s : Stmt) (ops : Ops) (a : Act) (h : ChanId → Chan) (choice : Nat) 
     | r :: rs =>
       let kc := (r :: rs).getD (choice % (r :: rs).length) r
       match kc.2.dir, ops.ch kc.1 with
-      | .recv, some id => doRecv h a id kc.2.slot none kc.2.target
+      | .recv, some id => doRecv h a id kc.2.slot kc.2.ok kc.2.target
       | .send, some id => doSend h a id (ops.val kc.1) kc.2.target
       | _, _ => none
   | .print _ => some ({ a with out := a.out ++ [ops.val 0], pc := a.pc + 1 }, none)
